@@ -350,4 +350,7 @@ def run(prog, tier):
     param_sync_rule(prog, res)
     who_may_mutate_rule(prog, res)
     derived_rule(prog, res)
+    # points in each frame = POINT:USED needs every frame to receive the same columns
+    import p_c06
+    p_c06.column_rules(prog, res, rule='column-uniform')
     return res
